@@ -324,7 +324,8 @@ _RULE_EXTRA = {
     "C05": "; 1 in 4 keyed tuples with column-changing branches (add / remove / move columns per branch, shared new names), judged by column name; 1 in 4 with an all-empty key; 1 in 20 indices carry a second case, a history through the command line (`wrgl commit` / `branch create` / 3..4 `wrgl merge` steps with --ff / --no-ff / --ff-only / default: BRANCH behind, ahead of (by one or two commits), on the same commit as, or diverged from the commit merged in; a completed merge run again; merged again after one side moved on), the table of every branch read back after every merge and judged by the merge laws on a model of the commit graph",
     "C06": "; block indices built by IndexBlock (0..5 or 255 rows, keyed or keyless): written, read, re-written, stored, fetched, compared with the Lean codec; table profiles of real ingests decoded and re-encoded (no Lean model of the profile: re-encoding clauses only); 1 in 32 a history of 2..8 Save*/Delete* calls on one store that writes keys again (same content; other content under the same table sum for table index / profile), read back after every step and dumped at the end, against the finite map of Model/ObjStore.lean; 1 in 64 a stored table whose index and profile keys hold another table's / an older profiler's / damaged / the same / no bytes, refreshed by IndexTable + ProfileTable and compared with the same refresh onto absent keys",
     "C07": "; 1 in 5 extra tables header-only; 1 table in 3 has a block (a middle one or the last) whose final row ends with an empty cell; commit times in 13 zones (whole-hour and fractional offsets on both sides of UTC); 1 case in 4 negotiated: histories of 2..8 commits with more merges, the destination asks for 1..2 commits it lacks and reports its tips (sometimes more, sometimes an unknown hash, in 1..2 rounds, depth 0..3, optionally acknowledging tables it has), the real ClosedSetsFinder picks the commit list, tables and commons that ObjectSender then sends; the transfer must succeed and leave every ancestor of the wants (tables within the depth) and nothing outside the wanted history",
-    "C11": "; walks from 3..5 start points with a repeated one",
+    "C11": "; walks from 3..5 start points with a repeated one; 2 per DAG: CommitsQueue.RemoveAncestors(1..2 commits) on a frontier started from 1..3 commits and advanced by 0..2 pops, judged by reachability (exactly the ancestors leave, the rest keep their order)",
+    "C12": "; 1 in 20: a repository directory (badger + SQLite files) with 1..3 transactions (in progress or committed, begun well before or after the time-to-live: default, 24h or 2h) staging 1..2 refs each, `wrgl gc` or `wrgl prune` through the command line, judged with the refs that exist afterwards as roots; 1 in 20: the SQLite ref store fails with a disk I/O error after 0..5 rows of a scan during prune (nothing reachable may go, success must mean complete), then a healthy re-run; 1 in 40: 30..60 commits over 25..40 tables on a real badger store",
     "C13": "; every write position also as a single injected write error (the operation continues): consistency, error reported or harmless, re-run; every crash point also as a recovery history (crash, a complete prune of the reopened repository, the operation again: same refs, every commit they reach and its table present, consistent); 1 in 4 cases: the fetch command's Fetch (default refspec) against the reference server, remote 1..3 commits ahead on main, optional second branch, 0..2 tags outside the refspec, 1..n packfiles; 1 in 4: one of the four kinds in a repository that also holds an unreachable commit",
     "C14": "; 1 in 5 scenarios inject the fault into discard (crash or single error at each of its store operations) and discard again; commit faults as crash or single error; 1 in 5 scenarios: the fault is one failing SQL statement inside the ref store (trigger: either statement of a branch's logged ref update, the status flip, a staged-ref delete, the transaction-row delete), then re-run / discard; 1 in 100 (thorough 1 in 400): branches made and the transaction staged by `wrgl commit --txid` (file argument / branch.file / --all in turn), dumped before and after staging and after each `wrgl transaction commit/discard` (one with a staged commit unreadable)",
     "C15": "; 1 in 8 logged sets run with a failing reflog insert (SQL trigger): must fail and change nothing; 1 in 4 sequences: logged sets with generated author, action, time and transaction id (two ids or none), then logged set + copy/rename + log read of the target; log entries are compared in all their fields",
